@@ -138,6 +138,8 @@ ROUND = {'around', 'round', 'round_', 'rint', 'floor', 'ceil', 'trunc',
          'fix', 'clip', 'nan_to_num'}
 # ufunc.reduceat returns the *next* element for an empty segment
 SEGMENT = {'reduceat'}
+# squaring under/overflows: |x| < 1.5e-162 squares to 0, |x| > 1.3e154 to inf
+SQUARE = {'norm', 'square', 'hypot'}
 NARROW = {'float32', 'float16', 'half', 'single', 'int8', 'int16', 'int32',
           'int64', 'uint8', 'uint16', 'uint32', 'uint64', 'intc', 'intp',
           'int_', 'int'}
@@ -178,12 +180,21 @@ def rule_numloss(repo, col, roots=(), skip_files=()):
         for n in ast.walk(fn):
             if isinstance(n, ast.Assert):
                 asserts.update(id(x) for x in ast.walk(n))
+        # `from m import f as g`: g(...) is f(...)
+        imported = {}
+        m_ = repo.modules.get(rel)
+        for imp in (ast.walk(m_.tree) if m_ is not None and
+                    getattr(m_, 'tree', None) is not None else ()):
+            if isinstance(imp, ast.ImportFrom):
+                for al in imp.names:
+                    imported[al.asname or al.name] = al.name
         for n in ast.walk(fn):
             if not isinstance(n, ast.Call) or id(n) in asserts:
                 continue
             f = n.func
             last = f.attr if isinstance(f, ast.Attribute) else (
-                f.id if isinstance(f, ast.Name) else None)
+                imported.get(f.id, f.id) if isinstance(f, ast.Name)
+                else None)
             if last is None:
                 continue
             what = None
@@ -193,6 +204,10 @@ def rule_numloss(repo, col, roots=(), skip_files=()):
                     dotted(f.value) in ('np', 'numpy', 'math'))):
                 what = last
             elif last in SEGMENT:
+                what = last
+            elif last in SQUARE and (isinstance(f, ast.Name) or (
+                    (dotted(f.value) or '').split('.')[-1] in (
+                        'linalg', 'np', 'numpy', 'spla', 'sla', 'LA'))):
                 what = last
             elif last == 'astype' and n.args:
                 w = _dtype_word(n.args[0])
@@ -660,6 +675,11 @@ RULE_TEXT['EF-ARGS'] = (
 ARG_MUTATORS = {'insert', 'append', 'extend', 'pop', 'remove', 'clear',
                 'sort', 'reverse', 'update', 'setdefault', 'popitem', 'add',
                 'discard', 'fill', 'put', 'resize', 'itemset'}
+# Table methods that work in place unless told otherwise, called on an
+# argument that is a table by name
+TABLE_INPLACE_DEFAULT = {'filter', 'transform', 'norm', 'pa', 'rankdata',
+                         'remove_empty', 'update_ids'}
+TABLE_ARG_NAMES = {'table', 'other', 't', 'tab', 'biom_table'}
 # functions whose contract is to change what they are handed
 ARG_MUTATION_ALLOWED = {
     ('biom/_subsample.pyx', '_subsample_with_replacement'),
@@ -703,6 +723,18 @@ class _ArgAlias:
                     for p in env.get(f.value.id, ()):
                         self.on_mutation(n, p, '%s.%s()' % (f.value.id,
                                                             f.attr))
+                if isinstance(f, ast.Attribute) and \
+                        f.attr in TABLE_INPLACE_DEFAULT and isinstance(
+                            f.value, ast.Name) and f.value.id in env and \
+                        f.value.id in TABLE_ARG_NAMES:
+                    ip = next((k.value for k in n.keywords
+                               if k.arg == 'inplace'), None)
+                    if ip is None or not (isinstance(ip, ast.Constant) and
+                                          ip.value is False):
+                        for p in env.get(f.value.id, ()):
+                            self.on_mutation(
+                                n, p, '%s.%s(...) [in place by default]'
+                                % (f.value.id, f.attr))
                 if isinstance(f, ast.Attribute) and f.attr == 'shuffle' \
                         and n.args and isinstance(n.args[0], ast.Name):
                     for p in env.get(n.args[0].id, ()):
